@@ -15,4 +15,22 @@ MUTATIONS = [
      "edits": [(N + "service.rs", "let timestamp = self.timestamp();\n        let mut refs = BoundedVec", "let timestamp: Timestamp = self.clock.into();\n        let mut refs = BoundedVec")]},
     {"id": "m38d", "prop": "C29", "expect": r"who:last_timestamp",
      "edits": [(N + "service.rs", "        let inventory = self.inventory()?;\n\n        self.inventory = gossip::inventory(time, inventory);", "        let inventory = self.inventory()?;\n        self.last_timestamp = time;\n        self.inventory = gossip::inventory(time, inventory);")]},
+    # ---- C19
+    {"id": "m33a", "prop": "C19", "expect": r"who:Doc",
+     "edits": [(R + "identity/doc.rs", '#[serde(try_from = "RawDoc")]\npub struct Doc {', 'pub struct Doc {')]},
+    {"id": "m33b", "prop": "C19", "expect": r"dom:Threshold::new",
+     "edits": [(R + "identity/doc.rs", "} else if t > delegates.len() {", "} else if t > delegates.len() + 1 {")]},
+    {"id": "m33c", "prop": "C19", "expect": r"dom:Delegates::new:len",
+     "edits": [(R + "identity/doc.rs", "if dids.len() >= MAX_DELEGATES {", "if dids.len() > MAX_DELEGATES {")]},
+    {"id": "m33d", "prop": "C19", "expect": r"dom:Version::new",
+     "edits": [(R + "identity/doc.rs", "Some(n) if n > IDENTITY_VERSION.into() =>", "Some(n) if n > IDENTITY_VERSION.into() && n.get() % 2 == 7 =>")]},
+    {"id": "m33f", "prop": "C19", "expect": r"who:Delegates",
+     "edits": [(R + "identity/doc.rs", "    /// Get the first delegate in the set.\n", "    pub fn unchecked(d: Vec<Did>) -> Option<Self> { NonEmpty::from_vec(d).map(Delegates) }\n    /// Get the first delegate in the set.\n")]},
+    # ---- C20
+    {"id": "m34a", "prop": "C20", "expect": r"dom:verified|who:SignedRefs",
+     "edits": [(R + "storage/refs.rs", "            Err(e) => Err(e),\n        }\n    }\n\n    pub fn verify<R: ReadRepository>", "            Err(_) => Ok(SignedRefs { refs: self.refs, signature: self.signature, id: self.id, _verified: PhantomData }),\n        }\n    }\n\n    pub fn verify<R: ReadRepository>")]},
+    {"id": "m34b", "prop": "C20", "expect": r"flow:verify:message",
+     "edits": [(R + "storage/refs.rs", "let canonical = self.refs.canonical();\n        let local = repo.id();", "let canonical = Refs::from(BTreeMap::new()).canonical();\n        let local = repo.id();")]},
+    {"id": "m34c", "prop": "C20", "expect": r"excl:verify:identity-mismatch",
+     "edits": [(R + "storage/refs.rs", "if remote != local {", "if remote != local && self.refs.len() > 100000 {")]},
 ]
